@@ -58,7 +58,59 @@ impl Drop for Token {
     }
 }
 
+thread_local! { static BUSY: std::cell::Cell<u8> = std::cell::Cell::new(0); }
+/// number of lookups that found their table held by the foreign client
+pub static BUSY_LOOKUPS: std::sync::atomic::AtomicU64 = std::sync::atomic::AtomicU64::new(0);
+pub const TABLES: [&str; 3] = ["CLIMATEMETADATA", "JULYRADDATA", "MONTHLYRADDATA"];
+const BUSY_HOLD_MS: u64 = 25;
+
+/// Environment answer "the table is in use by another client of the public static": run `f` on this thread with,
+/// for every table in the bit mask, a foreign thread holding the real lock at the moment of each lookup (it has the
+/// lock before the hook returns and gives it back 25 ms later). Blocking code waits and sees the same table.
+pub fn with_busy_tables<R>(mask: u8, f: impl FnOnce() -> R) -> R {
+    BUSY.with(|b| b.set(mask));
+    let r = f();
+    BUSY.with(|b| b.set(0));
+    r
+}
+
+fn hold_table(id: &'static str) {
+    use bemodel::climatedata::{CLIMATEMETADATA, JULYRADDATA, MONTHLYRADDATA};
+    let (tx, rx) = std::sync::mpsc::channel::<()>();
+    std::thread::spawn(move || {
+        let hold = std::time::Duration::from_millis(BUSY_HOLD_MS);
+        match id {
+            "CLIMATEMETADATA" => {
+                let _g = CLIMATEMETADATA.lock();
+                let _ = tx.send(());
+                std::thread::sleep(hold);
+            }
+            "JULYRADDATA" => {
+                let _g = JULYRADDATA.lock();
+                let _ = tx.send(());
+                std::thread::sleep(hold);
+            }
+            _ => {
+                let _g = MONTHLYRADDATA.lock();
+                let _ = tx.send(());
+                std::thread::sleep(hold);
+            }
+        }
+    });
+    let _ = rx.recv();
+    BUSY_LOOKUPS.fetch_add(1, std::sync::atomic::Ordering::Relaxed);
+}
+
 fn hook(id: &'static str) -> bemodel::verif::Token {
+    let mask = BUSY.with(|b| b.get());
+    if mask != 0 {
+        if let Some(i) = TABLES.iter().position(|t| *t == id) {
+            if mask & (1 << i) != 0 {
+                hold_table(id);
+            }
+        }
+        return Box::new(());
+    }
     match TID.with(|t| t.get()) {
         None => Box::new(()), // not a scheduled thread (reference computations on the main thread)
         Some(tid) => {
